@@ -64,6 +64,12 @@ fn run_notifications(open_text: &str, notes: &[&Value], tab: &[&str; 4]) -> (u64
                     if forgotten_expected || &*got != exp.as_str() {
                         return (n, Some(json!({"what": "text", "note": k, "change": ci, "expected": exp, "got": &*got})));
                     }
+                    // refinement obligation: DocSync interprets positions with the table OF the server's text (SrvIdx is
+                    // a function of `server`), so the stored line map must be the line map of the stored text
+                    let fresh = glas::verif::LineMap::verif_new(got.to_string()).1;
+                    if *vfs.line_map_for_file(file) != fresh {
+                        return (n, Some(json!({"what": "line map is not the line map of the stored text", "note": k, "change": ci, "text": &*got})));
+                    }
                 }
             }
         }
